@@ -100,6 +100,9 @@ func worker(jobFile string) int {
 		fmt.Fprintln(os.Stderr, "unknown property", job.Prop)
 		return 2
 	}
+	if job.Race && job.Start%2 == 1 {
+		world.InstallRealLogger()
+	}
 	prog, err := os.OpenFile(job.Progress, os.O_CREATE|os.O_WRONLY|os.O_APPEND, 0o644)
 	if err != nil {
 		fmt.Fprintln(os.Stderr, err)
@@ -313,7 +316,7 @@ func parent(id, tier string) int {
 			inconclusive = "race binary missing: " + raceBin
 		} else {
 			raceLog := filepath.Join(workDir, "racelog")
-			env := []string{"GORACE=halt_on_error=0 history_size=3 log_path=" + raceLog}
+			env := []string{"GORACE=halt_on_error=0 exitcode=0 history_size=3 log_path=" + raceLog}
 			ro := runWorkers(raceBin, p, tier, seed, true, rp.NumRaceCases(tier), workDir, env, timeout)
 			raceRan = ro.res.Evaluations
 			ro.res.Evaluations = 0
